@@ -1,8 +1,13 @@
 """C19 -- login response follows the documented challenge-response for all inputs.
-Proof: coq/Properties_C19.v (Md5.v, Login.v, LoginProofs.v).
+Proof: coq/Properties_C19.v (Md5.v, Login.v, LoginProofs.v, LoginGlue.v, LoginGlueProofs.v).
 Correspondence: the real login_calculate / md5_* (src/login.c, src/md5.c), the real
 send_raw_udp_login / handshake_raw_udp (src/client.c) and handle_raw_login (src/iodined.c)
 against the extracted model, on the same generated cases.
+Glue between the version reply and the login: the real handshake_version on scripted version
+replies followed by the real handshake_login / send_raw_udp_login (HV), the whole real
+client_handshake in raw mode (HF), the real 'V' branch of handle_null_request with a scripted
+rand() followed by the real login handler (SV), and the logins the real client sent fed to the
+real server (end to end) -- all against the model and against the independent formula.
 Implementation oracle (independent of the model): hashlib.md5 over the documented formula
   MD5( first 32 bytes of the zero-padded password  xor  8 x big-endian 32-bit challenge ),
 raw login = the same with challenge+1 (client -> server) and challenge-1 (server -> client),
@@ -20,11 +25,20 @@ UB_DOWN = 0x80000000
 
 vlib.HARNESSES['c19'] = dict(harness=['hmain.c', 'h_c19.c'], repo=vlib.PURE_SRCS, wraps=['time', 'md5_append'])
 vlib.HARNESSES['c19cli'] = dict(harness=['hmain.c', 'h_c19cli.c'], repo=vlib.PURE_SRCS,
-                                wraps=['time', 'sendto', 'select', 'recvfrom', 'recv'])
-vlib.HARNESSES['c19srv'] = dict(harness=['hmain.c', 'h_c19srv.c'], repo=vlib.PURE_SRCS, wraps=['time', 'sendto'])
-HARNESS_OF = {'L': 'c19', 'M': 'c19', 'M2': 'c19', 'CU': 'c19cli', 'CR': 'c19cli', 'SR': 'c19srv'}
+                                wraps=['time', 'sendto', 'select', 'recvfrom', 'recv', 'system'])
+vlib.HARNESSES['c19srv'] = dict(harness=['hmain.c', 'h_c19srv.c'], repo=vlib.PURE_SRCS, wraps=['time', 'sendto', 'rand'])
+HARNESS_OF = {'L': 'c19', 'M': 'c19', 'M2': 'c19', 'CU': 'c19cli', 'CR': 'c19cli', 'SR': 'c19srv',
+              'HV': 'c19cli', 'HF': 'c19cli', 'SV': 'c19srv', 'SN': 'c19srv'}
 KEY_OF = {'L': 'login_calculate', 'M': 'md5', 'M2': 'md5', 'CU': 'raw:client.c:send_raw_udp_login',
-          'CR': 'raw:client.c:handshake_raw_udp', 'SR': 'raw:iodined.c:handle_raw_login'}
+          'CR': 'raw:client.c:handshake_raw_udp', 'SR': 'raw:iodined.c:handle_raw_login',
+          'HV': 'glue:client.c:handshake_version', 'HF': 'glue:client.c:client_handshake',
+          'SV': 'glue:iodined.c:version_reply', 'SN': 'glue:iodined.c:version_nak'}
+# challenges for the version-reply glue: the sign bit of every byte and of the whole word
+PROTO = 0x00000502      # doc/proto_00000502.txt
+GLUE_CHALLENGES = ([0x00000080, 0x000000ff, 0x7fffffff, 0x80000000, 0xffffffff, 0, 1, 0x7f, 0x100, 0x7f7f7f7f, 0x80808080,
+                    0x01020304, 0xfffffffe, 0x7ffffffe, 0x80000001, 0xffffff80, 0xffffff7f] +
+                   [b << (8 * k) for k in range(4) for b in (0x80, 0x7f, 0xff, 0x81)] +
+                   [sum((0x80 if (m >> k) & 1 else 0x7f) << (8 * k) for k in range(4)) for m in range(16)])
 
 
 # ---- the documented formula, from doc/proto_00000502.txt (never from the model) -------------
@@ -202,6 +216,109 @@ def gen_cases(seed, tier):
     for _ in range(300 * mult):
         cases.append(cr(gen_password(rng), gen_seed(rng)))
         stats['raw_client_check'] += 1
+
+    # ---- glue: version reply -> login -------------------------------------------------------
+    def glue_seed():
+        m = rng.randrange(8)
+        if m == 0:
+            return rng.choice(GLUE_CHALLENGES)
+        if m == 1:      # every byte: bit 7 set or clear at random, low bits random
+            return sum(((0x80 if rng.randrange(2) else 0) | rng.randrange(0x80)) << (8 * k) for k in range(4))
+        if m == 2:      # low byte >= 0x80
+            return (rng.randrange(1 << 24) << 8) | rng.randrange(0x80, 0x100)
+        if m == 3:
+            return gen_seed(rng)
+        return rng.randrange(M32)
+
+    def vack(s, uid):
+        return b'VACK' + (s % M32).to_bytes(4, 'big') + bytes([uid])
+
+    def raw_answer(pw, s):
+        up, down = doc_login(pw, s + 1), doc_login(pw, s - 1)
+        k = rng.randrange(8)
+        if k <= 3:
+            return down
+        if k == 4:
+            return down + bytes(rng.randrange(256) for _ in range(rng.randrange(1, 9)))
+        if k == 5:
+            return rng.choice([up, doc_login(pw, s), flip(down, rng)])
+        if k == 6:
+            return down[:rng.choice([1, 15])]
+        return bytes(rng.randrange(256) for _ in range(16))
+
+    def hv(pw, rep, kind=None):
+        stats['glue_client_version_login'] += 1
+        return 'HV %s %s %s' % (hexs(pw), hexs(rep), kind or rng.choice('NT'))
+
+    def hf(pw, rep, ans, kind=None):
+        stats['glue_client_full_handshake'] += 1
+        return 'HF %s %s %s %s' % (hexs(pw), hexs(rep), kind or rng.choice('NT'), hexs(ans))
+
+    def sv(pw, s, uid, login, kind=None):
+        stats['glue_server_version_login'] += 1
+        return 'SV %s %d %d %s %s' % (hexs(pw), s % M32, uid, kind or rng.choice('NT'), hexs(login))
+
+    def srv_login(pw, s):
+        k = rng.randrange(8)
+        if k <= 3:
+            return doc_login(pw, s)
+        if k == 4:
+            return rng.choice([doc_login(pw, s + 1), doc_login(pw, s - 1), doc_login(pw, s | 0xffffff00), doc_login(pw, s & 0xff)])
+        if k == 5:
+            return flip(doc_login(pw, s), rng)
+        if k == 6:
+            return doc_login(pw, s)[:rng.choice([1, 15])]
+        return bytes(rng.randrange(256) for _ in range(16))
+
+    for k in ('glue_client_version_login', 'glue_client_full_handshake', 'glue_server_version_login', 'glue_client_malformed_reply',
+              'glue_server_version_mismatch'):
+        stats[k] = 0
+    fixed = b'iodine is the shit'
+    for i, s in enumerate(GLUE_CHALLENGES):
+        for kind in 'NT':
+            pw = fixed if kind == 'N' else gen_password(rng)
+            cases.append(hv(pw, vack(s, i % 16), kind))
+            cases.append(hf(pw, vack(s, (i + 5) % 16), doc_login(pw, s - 1), kind))
+            cases.append(hf(pw, vack(s, (i + 9) % 16), doc_login(pw, s + 1), kind))
+            cases.append(sv(pw, s, i % 16, doc_login(pw, s), kind))
+            cases.append(sv(pw, s, (i + 3) % 16, doc_login(pw, s | 0xffffff00) if s & 0x80 else doc_login(pw, s + 1), kind))
+    for _ in range(100 * mult):
+        pw, s = gen_password(rng), glue_seed()
+        cases.append(hv(pw, vack(s, rng.randrange(16))))
+    for _ in range(40 * mult):
+        pw, s = gen_password(rng), glue_seed()
+        cases.append(hf(pw, vack(s, rng.randrange(16)), raw_answer(pw, s)))
+    for _ in range(80 * mult):
+        pw, s = gen_password(rng), glue_seed()
+        cases.append(sv(pw, s, rng.randrange(16), srv_login(pw, s)))
+    # version messages that are not the server's version (every byte position with bit 7 set / clear)
+    for v in GLUE_CHALLENGES + [rng.randrange(M32) for _ in range(6 * mult)] + [PROTO ^ (1 << k) for k in range(32)]:
+        if v != PROTO:
+            cases.append('SN %s %s' % (hexs(v.to_bytes(4, 'big') + bytes(rng.randrange(256) for _ in range(2))), rng.choice('NT')))
+            stats['glue_server_version_mismatch'] += 1
+    for n in (1, 2, 3, 4):      # too short to carry a version ("read > 4")
+        cases.append('SN %s N' % hexs(PROTO.to_bytes(4, 'big')[:n]))
+        stats['glue_server_version_mismatch'] += 1
+    # replies handshake_version must not take a challenge from, over-long replies, userids >= 0x80
+    for _ in range(12 * mult):
+        pw, s = gen_password(rng), glue_seed()
+        k = rng.randrange(8)
+        if k == 0:
+            rep = rng.choice([b'VNAK', b'VFUL']) + s.to_bytes(4, 'big') + bytes([rng.randrange(16)])
+        elif k == 1:
+            rep = vack(s, 3)[:rng.randrange(1, 9)]
+        elif k == 2:
+            rep = vack(s, rng.randrange(16)) + bytes(rng.randrange(256) for _ in range(rng.randrange(1, 20)))
+        elif k == 3:
+            rep = rng.choice([b'vack', b'VACk', b'VAC\0', b'LNAK', b'\xd6ACK']) + s.to_bytes(4, 'big') + b'\x01'
+        elif k == 4:
+            rep = vack(s, rng.randrange(0x10, 0x100))
+        elif k == 5:
+            rep = bytes(rng.randrange(256) for _ in range(rng.randrange(1, 24)))
+        else:
+            rep = vack(s, rng.randrange(16))
+        stats['glue_client_malformed_reply'] += 1
+        cases.append(rng.choice([hv(pw, rep), hf(pw, rep, raw_answer(pw, s))]))
     return cases, stats
 
 
@@ -258,7 +375,77 @@ def oracle(case, out):
             return None
         return 'client raw handshake: got %r for a server answer carrying %s, the document prescribes %r' % (
             out, 'login(challenge-1)' if h[:16] == down else 'login(challenge+1)' if h[:16] == up else 'a non-matching hash', want)
+    if t[0] in ('HV', 'HF'):
+        pw, rep = unh(t[1]), unh(t[2])
+        if len(rep) < 9 or rep[:4] != b'VACK':
+            return None if out == 'rv=1' else ('handshake_version took a challenge from a reply that is not a 9-byte VACK (%s): %s' % (rep[:12].hex(), out[:160]))
+        s = int.from_bytes(rep[4:8], 'big')
+        uid = rep[8] - 256 if rep[8] >= 0x80 else rep[8]
+        f = dict(x.split('=', 1) for x in out.split(' ') if '=' in x)
+        where = 'challenge 0x%08x in the VACK reply' % s
+        if f.get('rv') != '0':
+            return 'client did not accept a well-formed VACK reply (%s): %s' % (where, out[:160])
+        if 'dns' not in f or 'raw' not in f or 'luid' not in f:
+            return 'client sent no usable login after the version reply (%s): %s' % (where, out[:200])
+        if f.get('uid') != str(uid) or f.get('luid') != str(rep[8]):
+            return 'client took userid %s / sends userid byte %s for userid byte %d of the reply' % (f.get('uid'), f.get('luid'), rep[8])
+        want = doc_login(pw, s).hex()
+        if f['dns'] != want:
+            other = next(('0x%08x' % c for c in (s | 0xffffff00, s | 0xffff0000, s | 0xff000000, s & 0xff, s + 1, s - 1,
+                                                 int.from_bytes(rep[4:8], 'little')) if doc_login(pw, c).hex() == f['dns']), None)
+            return ('DNS login of the client for %s is %s%s, the document prescribes MD5(pass32 xor 8 x challenge) = %s' % (
+                where, f['dns'], ' = the response for challenge ' + other if other else '', want))
+        want = doc_login(pw, s + 1).hex()
+        if f['raw'] != want:
+            other = next(('0x%08x' % (c % M32) for c in ((s | 0xffffff00) + 1, s, s - 1) if doc_login(pw, c).hex() == f['raw']), None)
+            return ('raw login of the client for %s is %s%s, the document prescribes login(challenge+1) = %s' % (
+                where, f['raw'], ' = the response for challenge ' + other if other else '', want))
+        if t[0] == 'HV' and f.get('seed') != str(s):
+            return ('handshake_version stored seed 0x%08x for %s' % (int(f.get('seed', '0')) % M32, where))
+        if t[0] == 'HF':
+            ans = unh(t[4])
+            wc = 'RAW' if (len(ans) >= 16 and ans[:16] == doc_login(pw, s - 1)) else 'DNS'
+            if f.get('conn') != wc:
+                return ('client_handshake ends in %s mode for %s and a server raw answer that %s login(challenge-1); expected %s' % (
+                    f.get('conn'), where, 'is' if wc == 'RAW' else 'is not', wc))
+        return None
+    if t[0] == 'SV':
+        pw, r, uid, login = unh(t[1]), int(t[2]), int(t[3]), unh(t[5])
+        login = (login + bytes(16))[:16]
+        ok = login == doc_login(pw, r)
+        want = 'reply=%s seed=%d rand_calls=1 login=%s auth=%d' % (
+            (b'VACK' + r.to_bytes(4, 'big') + bytes([uid])).hex(), r, 'ACCEPT' if ok else 'LNAK', 1 if ok else 0)
+        if out == want:
+            return None
+        f = dict(x.split('=', 1) for x in out.split(' ') if '=' in x)
+        if f.get('reply') != want.split(' ')[0][6:]:
+            return ('version reply of the server for rand() = 0x%08x, user %d is %s; the document prescribes VACK + big-endian challenge + userid = %s' % (
+                r, uid, f.get('reply'), want.split(' ')[0][6:]))
+        return 'server with challenge 0x%08x: got %r, expected %r (login %s the documented response)' % (r, out[:200], want, 'is' if ok else 'is not')
+    if t[0] == 'SN':
+        want = 'reply=%s rand_calls=0' % (b'VNAK' + PROTO.to_bytes(4, 'big') + b'\0').hex()
+        return None if out == want else ('server answer to the version message %s: %r, the document prescribes VNAK + the server version: %r' % (t[1], out[:120], want))
     return 'unknown case kind'
+
+
+def e2e_cases(cases, impl, limit):
+    """the login the real client sent (HV results) for a well-formed server reply, handed to the real
+    server whose rand() returns that challenge: SV cases that must all end in ACCEPT"""
+    out = []
+    for c, o in zip(cases, impl):
+        t = c.split(' ')
+        if t[0] != 'HV' or not o.startswith('rv=0 '):
+            continue
+        rep = unh(t[2])
+        if len(rep) != 9 or rep[:4] != b'VACK' or rep[8] >= 16:
+            continue
+        f = dict(x.split('=', 1) for x in o.split(' ') if '=' in x)
+        if 'dns' not in f or 'luid' not in f:
+            continue
+        out.append('SV %s %d %s %s %s' % (t[1], int.from_bytes(rep[4:8], 'big'), f['luid'], t[3], f['dns']))
+        if len(out) >= limit:
+            break
+    return out
 
 
 def san_summary(err):
@@ -273,11 +460,14 @@ def kind(case):
 
 def nontrivial(case):
     t = case.split(' ')
+    if t[0] in ('HV', 'HF', 'SV', 'SN'):
+        return True
     return t[-1] != '-' and not (t[0] == 'L' and t[2] == '-')
 
 
 def ub_case(case):
-    """raw-login cases in which the C evaluates seed+1 at INT_MAX or seed-1 at INT_MIN."""
+    """raw-login cases in which a C that computes seed+1 / seed-1 on an int would overflow (the tree
+    does it on unsigned int; the sanitizer build runs these cases too)."""
     t = case.split(' ')
     if t[0] == 'CU':
         return int(t[2]) == UB_UP
@@ -369,23 +559,38 @@ def check(rep):
                        'password offsets, random passwords (all byte values, NULs inside, >=0x80, 0xff, printable) x boundary/random '
                        'challenges, buflen 0..15; md5: every message length 0..200 + padding boundaries + split appends; raw login: '
                        'client send_raw_udp_login, server handle_raw_login and client handshake_raw_udp with matching, opposite-direction, '
-                       'same-seed, bit-flipped, short, over-long and random hashes. Oracle: hashlib.md5 over the documented formula. '
+                       'same-seed, bit-flipped, short, over-long and random hashes. Glue version reply -> login: the real '
+                       'handshake_version on VACK replies (NULL and TXT answers) carrying 0x80, 0xff, 0x7fffffff, 0x80000000, 0xffffffff, '
+                       '0x80/0x7f/0xff/0x81 at each byte position, all 16 sign-bit patterns of the four bytes, random challenges (bit 7 of '
+                       'every byte set/clear, low byte >= 0x80, uniform), then the first login query of the real handshake_login and the '
+                       'datagram of send_raw_udp_login (HV); the whole real client_handshake in raw mode with matching / non-matching server '
+                       'raw answers (HF); VNAK, VFUL, short, over-long, wrong-tag, userid >= 0x80 and random replies; the real version handler '
+                       'with rand() scripted to the same challenges and the real login handler on matching / off-by-one / sign-extended / '
+                       'flipped / short / random hashes (SV), and on version messages other than the version of the server (SN: VNAK reply, rand() not called); the logins the real client sent handed to the real server (end to end). '
+                       'Oracle: hashlib.md5 over the documented formula. '
                        'distinct = distinct case lines; non-trivial = non-empty password/message')
     rep.cov['input_distribution'] = stats
     rep.cov['evaluations'] = len(cases)
     rep.cov['distinct_nontrivial'] = len(set(c for c in cases if nontrivial(c)))
     rep.cov['samples'] = [c[:300] for c in (cases[0:2] + cases[400:402] + [c for c in cases if kind(c) == 'M'][100:101] +
                                             [c for c in cases if kind(c) == 'CU'][:1] + [c for c in cases if kind(c) == 'SR'][40:42] +
-                                            [c for c in cases if kind(c) == 'CR'][40:42])]
+                                            [c for c in cases if kind(c) == 'CR'][40:42] + [c for c in cases if kind(c) == 'HV'][:2] +
+                                            [c for c in cases if kind(c) == 'HF'][:1] + [c for c in cases if kind(c) == 'SV'][:1])]
     rep.cov['exhaustive'] = False
-    rep.notes.append('observation (not counted as a violation): client.c:1284 / iodined.c:1939 evaluate seed + 1 and client.c:1505 / '
-                     'iodined.c:1951 evaluate seed - 1 on a C int; at seed = INT_MAX resp. INT_MIN this is signed overflow (UBSan: '
-                     '"2147483647 + 1 cannot be represented in type int").  gcc/x86-64 wraps, both peers then agree, and the plain build is '
-                     'checked at those seeds; the sanitizer run leaves exactly those raw-login cases out.')
+    rep.notes.append('send_raw_udp_login / handshake_raw_udp / handle_raw_login compute challenge+1 and challenge-1 on unsigned int '
+                     '((int) ((unsigned int) seed + 1)); the sanitizer build runs the raw-login cases at INT_MAX / INT_MIN as well, where a '
+                     'plain int seed + 1 / seed - 1 would be reported (signed overflow).  The reassembly of the challenge in '
+                     'handshake_version is checked for int-shift overflow both by the proof (cli_payload_defined) and by the sanitizer build.')
+    if ctx.consts is not None and 'C19_GLUE_ERROR' in (ctx.consts or {}):
+        ctx.broken.append(('translator:c19-glue', 'version reply / challenge reassembly no longer has the shape the model is generated from: ' +
+                           ctx.consts['C19_GLUE_ERROR']))
     rep.cov['trusted_base'] = rep.cov['trusted_base'] + [
         'hashlib.md5 (OpenSSL) as the implementation-level oracle, formula transcribed from doc/proto_00000502.txt',
         'link-time interposers (--wrap=md5_append, sendto, select, recvfrom, recv, time) pass data through unchanged',
-        'C int seed+1 / seed-1 at INT_MAX / INT_MIN is signed overflow (undefined); gcc on x86-64 wraps, which the model states explicitly']
+        'link-time interposers --wrap=rand (scripted challenge) and --wrap=system (tun_setip / tun_setmtu of a successful login)',
+        'char is signed, int is 32-bit two\'s complement, conversions uint32_t -> int and int -> char keep the low bits (gcc, x86-64); '
+        'the model states these conversions explicitly',
+        'the DNS transport of the 9-byte version reply is the repository\'s own dns_encode / dns_decode (properties C09/C10)']
     impl = None
     if ctx.exe:
         impl, problems = run_impl(ctx, ctx.exe, cases, 'impl')
@@ -399,13 +604,32 @@ def check(rep):
             if why:
                 seen.add(KEY_OF.get(kind(c)))
                 rep.add_violation(KEY_OF.get(kind(c), 'c19'), why, dict(kind='input', driver=HARNESS_OF[kind(c)], case=c, observed=o, expected=why))
-        if ctx.san:
-            sub = [c for c in cases if not ub_case(c)]
-            sl, problems = run_impl(ctx, ctx.san, sub, 'san')
-            rep.cov['sanitizer_cases'] = len(sub)
-            rep.cov['sanitizer_excluded_signed_overflow_cases'] = len(cases) - len(sub)
+        # end to end: what the real client sent, into the real server holding the same challenge
+        if 'c19srv' in ctx.exe and 'c19cli' in ctx.exe:
+            ee = e2e_cases(cases, impl, 300 if rep.tier == 'quick' else 6000)
+            eo, problems = run_impl(ctx, ctx.exe, ee, 'e2e')
+            rep.cov['input_distribution']['glue_end_to_end'] = len(ee)
             for h, rc, err, bad in problems:
-                rep.add_violation('sanitizer:' + h, 'ASan/UBSan report in %s on case %r: %s' % (h, (bad or '?')[:120], san_summary(err)),
+                ctx.broken.append(('impl-crash:' + h, 'implementation harness %s exited with %d on case %r: %s' % (h, rc, bad, err[-300:])))
+            for c, o in zip(ee, eo):
+                if ' login=ACCEPT auth=1' not in o:
+                    t = c.split(' ')
+                    hvc = next((x for x in cases if x.startswith('HV %s %s ' % (t[1], (b'VACK' + int(t[2]).to_bytes(4, 'big') + bytes([int(t[3])])).hex()))), None)
+                    rep.add_violation('glue:end-to-end', 'the real server with challenge 0x%08x (rand() value) rejects the login %s the real client '
+                                      'sent after receiving that challenge in the version reply: %s; documented response %s' % (
+                                          int(t[2]), t[5], o[:160], doc_login(unh(t[1]), int(t[2])).hex()),
+                                      dict(kind='input', driver='c19srv', case=c, client_case=hvc, observed=o, expected='login=ACCEPT'))
+                    break
+            cases = cases + ee
+            impl = impl + eo
+            rep.cov['evaluations'] = len(cases)
+            rep.cov['distinct_nontrivial'] = len(set(c for c in cases if nontrivial(c)))
+        if ctx.san:
+            sl, problems = run_impl(ctx, ctx.san, cases, 'san')
+            rep.cov['sanitizer_cases'] = len(cases)
+            rep.cov['sanitizer_cases_at_int_overflow_seeds'] = len([c for c in cases if ub_case(c)])
+            for h, rc, err, bad in problems:
+                rep.add_violation('sanitizer:' + h, 'ASan/UBSan report in %s on case %r: %s' % (h, (bad or '?')[:160], san_summary(err)),
                                   dict(kind='input', driver=h + '.san', case=bad, observed=err[-3000:]))
     if ctx.model and impl is not None:
         import time
@@ -432,6 +656,28 @@ def replay(rp):
         return 1
     h = HARNESS_OF.get(kind(case), 'c19')
     san = str(rp.get('driver', '')).endswith('.san')
+    if rp.get('client_case'):
+        # end to end: the real client on the version reply, its login into the real server
+        ctx = vlib.prepare(rep, harnesses=('c19cli', 'c19srv'), sanitize=False, prove_it=False)
+        if 'c19cli' not in ctx.exe or 'c19srv' not in ctx.exe:
+            print('harness does not build')
+            return 1
+        cp = os.path.join(ctx.work, 'replay.cases')
+        open(cp, 'w').write(rp['client_case'] + '\n')
+        rc, co, err = vlib.run_cases(ctx.exe['c19cli'], cp)
+        ee = e2e_cases([rp['client_case']], co[:1], 1) if co else []
+        print('client case:', rp['client_case'][:300])
+        print('client     :', co[0][:300] if co else err)
+        if not ee:
+            print('the client sent no login for this version reply')
+            return 1
+        open(cp, 'w').write(ee[0] + '\n')
+        rc, so, err = vlib.run_cases(ctx.exe['c19srv'], cp)
+        print('server case:', ee[0][:300])
+        print('server     :', so[0][:300] if so else err)
+        ok = bool(so) and ' login=ACCEPT auth=1' in so[0]
+        print('end to end :', 'login accepted' if ok else 'the server rejects the login the client sent for its own challenge')
+        return 0 if ok else 1
     ctx = vlib.prepare(rep, harnesses=(h,), sanitize=san, prove_it=False)
     cp = os.path.join(ctx.work, 'replay.cases')
     open(cp, 'w').write(case + '\n')
